@@ -455,10 +455,36 @@ def byte_table(R, name, v) -> typing.List[dict]:
     return [res(R, name, f"{name}: {n}[k] == (value >> 8k) & 0xFF", not bad, "; ".join(bad))]
 
 
+SHIFT_TYPE_BITS = {"int": 31, "unsigned int": 32, "long": 63, "unsigned long": 64, "long long": 63, "unsigned long long": 64,
+                   "unsigned short": 16, "short": 15, "unsigned char": 8}
+
+
+def shift_width_ok(fn) -> typing.Tuple[bool, str]:
+    """every `byte << k` of the reassembly is evaluated in a type that holds k + 8 value bits (a byte promoted to int and
+    shifted by 24 reaches the sign bit: the result sign-extends when it is widened to 64 bits)"""
+    for r in cast.walk(fn):
+        if r.get("kind") != "ReturnStmt":
+            continue
+        for b in cast.walk(r):
+            if b.get("kind") == "BinaryOperator" and b.get("opcode") == "<<":
+                rhs = cast.term(b["inner"][1])
+                if rhs[0] != "int":
+                    continue
+                ty = b.get("type", {})
+                q = ty.get("desugaredQualType") or ty.get("qualType", "")
+                bits = SHIFT_TYPE_BITS.get(q.replace("const ", "").strip())
+                if bits is not None and rhs[1] + 8 > bits:
+                    return False, (f"`{cast.show(cast.term(b))}` is evaluated as {q} ({bits} value bits) but needs {rhs[1] + 8}: for a byte with its top bit set the "
+                                   "shift reaches the sign bit and the widened result has all higher bits set")
+    return True, ""
+
+
 def byte_assembly(R, name, v) -> typing.List[dict]:
     rets = [t for _s, t in v.terms() if t[0] == "un" and t[1] == "return"]
     if not rets:
         return [res(R, name, f"{name}: reassembly", False, "no return")]
+    okw, whyw = shift_width_ok(v.fn)
+    extra = [res(R, name, f"{name}: every byte is widened before it is shifted into place", okw, whyw)]
     ors = flat("|", rets[-1][2])
     W = name_width(name) or 0
     bad = []
@@ -476,7 +502,7 @@ def byte_assembly(R, name, v) -> typing.List[dict]:
             bad.append(f"byte {k} is shifted by {sh}")
     if seen != set(range(W // 8)):
         bad.append(f"bytes used {sorted(seen)} != 0..{W // 8 - 1}")
-    return [res(R, name, f"{name}: result == OR of tmp[k] << 8k", not bad, "; ".join(bad))]
+    return [res(R, name, f"{name}: result == OR of tmp[k] << 8k", not bad, "; ".join(bad))] + extra
 
 
 def rule_family(fns) -> typing.List[dict]:
